@@ -11,6 +11,8 @@ def jobs(tier):
             J.append(Job('tmpl-t%d-%s'%(ti,'rate' if qb else 'q'),'C15/tmpl.c',defs=['-DTI=%d'%ti,'-DQB=%d'%qb],unwind=20,object_bits=12,solver='kissat',
                 witnesses=['this template selected'],functions=['get_setup_template'],models=['real lib/modes/*.h tables'],
                 bounds='template %d of 17, %s mode; req any double; channels/rate anything the template admits'%(ti,'bitrate' if qb else 'quality'),weight=2))
+    J.append(Job('setup-guard','C15/setup_guard.c',cuts={'vorbisenc.c':['get_setup_template','vorbis_encode_setup_setting','vorbis_encode_blocksize_setup']},unwind=4,object_bits=12,witnesses=['set-up proceeds','coupling control used','refused'],
+        functions=['vorbis_encode_setup_init','vorbis_encode_setup_vbr','vorbis_encode_setup_managed','vorbis_encode_ctl'],models=['get_setup_template contract (tmpl-*)','set-up construction cut at its first worker'],bounds='histories of <=2 set-up/control calls with arbitrary arguments on a fresh info, then setup_init',weight=2))
     J.append(Job('oneshot','C15/oneshot.c',cuts={'vorbisenc.c':['vorbis_encode_setup_managed','vorbis_encode_setup_vbr','vorbis_encode_setup_init']},unwind=4,object_bits=12,witnesses=['second stage failed','first stage failed','success'],functions=['vorbis_encode_init','vorbis_encode_init_vbr'],
         models=['set-up stages cut to success/documented-error stubs'],bounds='every combination of stage outcomes'))
     J.append(Job('ctl-ratemanage2','C15/ctl_rm2.c',unwind=4,object_bits=12,witnesses=['frozen','accepted','rejected'],functions=['vorbis_encode_ctl'],tags=['C14'],
